@@ -111,6 +111,7 @@ class VLoop(asyncio.BaseEventLoop):
         self.state_fn: Callable[[], Any] | None = None
         self.state_keys: list[tuple[str, str]] = []  # (choice label, state key) after each quiescence
         self.deadlocked = False
+        self.ndrives = 0
         self.set_task_factory(self._make_task)
         self.set_exception_handler(self._on_loop_error)
 
@@ -204,6 +205,7 @@ class VLoop(asyncio.BaseEventLoop):
             raise HarnessError("VLoop.drive while another loop is running")
         self._thread_id = threading.get_ident()
         events._set_running_loop(self)
+        self.ndrives += 1
         try:
             task = self.create_task(coro)
             holding = False
